@@ -30,7 +30,7 @@ class Unsupported(Exception):
 
 
 INT0 = 4       # code of python int 0
-MAXINT = 31    # python ints 0..MAXINT are representable
+MAXINT = 63    # python ints 0..MAXINT are representable
 
 
 # ----------------------------------------------------------------------------- expressions
@@ -900,6 +900,13 @@ class Compiler:
 
     def ev(self, ctx, node, cur):
         """returns (cur, value Expr).  Emits edges for loads of mutable fields, calls, primitives."""
+        if self.extra_stubs:
+            try:
+                key = "expr:" + ast.unparse(node)
+            except Exception:
+                key = None
+            if key in self.extra_stubs:
+                return self.extra_stubs[key](self, ctx, node, cur)
         if isinstance(node, ast.Constant):
             return cur, C(self.U.const(node.value))
         if isinstance(node, ast.Name):
@@ -1037,7 +1044,7 @@ class Compiler:
             if name == "len":
                 cur, x = self.ev(ctx, node.args[0], cur)
                 return cur, ("len", x)
-            if name in ("isinstance",):
+            if name == "isinstance" and "isinstance" not in self.extra_stubs:
                 self.err(node, "isinstance unsupported")
             if name == "set" and not node.args:
                 return self.alloc(ctx, "Set", cur, node)
